@@ -2,7 +2,7 @@
 Deductive part: UVLReader.set_parse_tree -- no normal return on a path on which the registered listener holds an error (the
 front end objects are opaque library values; that ANTLR reports every syntax error to the listener is assumed).  The walk
 over the parse tree is decided by the bounded stand-in against an independent emitter."""
-from contracts.api import contract, spec, TR, implies, iff
+from contracts.api import contract, spec, TR, implies, iff, reports_only_to
 
 
 @contract(TR + 'uvl_reader.py', 'UVLReader.set_parse_tree', prop='C04')
@@ -14,5 +14,8 @@ class SetParseTree:
     def post_errors_are_fatal(self, error_listener, result):
         return not error_listener.errors
 
-    def post_listener_attached(self, parser, error_listener, result):
-        return True
+    def post_lexer_reports_to_listener(self, lexer, error_listener, result):
+        return reports_only_to(lexer, error_listener)
+
+    def post_parser_reports_to_listener(self, parser, error_listener, result):
+        return reports_only_to(parser, error_listener)
